@@ -121,6 +121,9 @@ func runGen() {
 	for _, d := range env.Decls {
 		if d.Pkg == "ext" {
 			fmt.Fprintf(&ext, "type %s %s\n", d.Name, d.Under.Go(env, "ext"))
+			if d.Methods != "" {
+				ext.WriteString("\n" + gen.MethodSrc(d))
+			}
 		} else {
 			if d.Src != "" {
 				p.WriteString(d.Src + "\n")
